@@ -1,15 +1,15 @@
 SPECIFICATION Spec
 CONSTANTS
-  MaxBlocks = 3
-  MaxReqs = 3
-  Templates = {"o23", "jmp", "ret", "call"}
-  PatchKinds = {"plain2", "jmpsym", "callsym", "ref"}
+  MaxBlocks = 2
+  MaxReqs = 2
+  Templates = {"o23", "ret", "d3"}
+  PatchKinds = {"plain2", "loop"}
   FnLayouts = {"none", "one"}
-  EndSyms = {FALSE}
+  EndSyms = {TRUE, FALSE}
   AnnModes = {"none"}
   WithProxyDel = TRUE
   CfiLayouts = {"none"}
-  Isa = "x64"
+  Isa = "arm64"
   Emit = TRUE
 INVARIANT Inv
 CHECK_DEADLOCK FALSE
